@@ -1,4 +1,5 @@
 """C09 ZBDD set-family operations: wiring"""
+import etaut
 import ector
 import ecof
 import eeval
@@ -69,4 +70,9 @@ def run(ctx):
                 "edge; ZBDD: (tautology(level + 1), Empty) as the first node of its chain); the default not_var is not(var).")
     n = ector.run(ctx, F, only=("zbdd",))
     ctx.floor("E-TABLE.ctor", "interpreted constructor bodies", n, 5)
-    ctx.not_decided = "make_node, the tautology cache itself, consistency after add_vars beyond the cache events"
+    ctx.explain("E-TAUT: ZBDDCache::tautology(level) returns the chain entry covering exactly the levels from `level` down "
+                "(Base beyond the last level); post_reorder_mut (run on init, add_vars and after reordering) starts the chain "
+                "with Base, walks the levels bottom-up and appends node(level; prev, prev) per level, then stores the chain.")
+    n = etaut.run(ctx, F)
+    ctx.floor("E-TAUT", "lookup / build situations", n, 8)
+    ctx.not_decided = "consistency after add_vars beyond the cache events and the rebuilt tautology chain"
